@@ -73,6 +73,8 @@ func runHistory(sp spec, tmp string) (res *result, err error) {
 		h.witnessNonLeaderExecute()
 	case "w-nil-leader":
 		h.witnessNilLeader()
+	case "w-unsigned-key":
+		h.witnessUnsignedKey()
 	case "gen":
 		for k := 0; k < 2+h.rng.Intn(2) && !h.cut; k++ {
 			h.attempt()
@@ -97,6 +99,8 @@ func runHistory(sp spec, tmp string) (res *result, err error) {
 		}
 	case "sleep":
 		h.sleepHistory()
+	case "sweep":
+		h.sweepHistory()
 	}
 	res = &result{spec: sp, w: w, notes: h.notes, cut: h.cut}
 	for _, n := range w.nodes {
@@ -161,6 +165,24 @@ func (h *hist) witnessNonLeaderExecute() {
 	h.packet(2, h.forged(2, "execute", h.w.ids[1], h.w.ids[1]), "execute signed by remaining member n1 (not the leader)", "member")
 }
 
+// the leader's genuine, signed reshare proposal is altered in transit: the KEY of another remaining
+// member is replaced; keys are not covered by the signature and members compare addresses only.
+func (h *hist) witnessUnsignedKey() {
+	h.fabricate([]int{0, 1, 2}, 2, 1)
+	s := reshareSpec{leader: 0, remaining: []int{0, 1, 2}, leaving: nil, joining: nil, thr: 2}
+	_, prop := h.command(0, h.reshareCmd(s, ""), "cmd-reshare", "leader", false)
+	if prop == nil {
+		return
+	}
+	q := proto.Clone(prop).(*pdkg.GossipPacket)
+	for _, p := range q.GetProposal().Remaining {
+		if p.Address == h.w.ids[2].part.Address {
+			p.Key = h.attacker().part.Key
+		}
+	}
+	h.packet(1, q, "proposal:mutated:t-remainer-key", "leader")
+}
+
 // a proposal without a leader: terms.Leader.Address is a nil dereference in DBState.Proposed.
 func (h *hist) witnessNilLeader() {
 	x := h.attacker()
@@ -213,6 +235,29 @@ func (h *hist) sleepHistory() {
 	h.attempt()
 }
 
+// sweepHistory: an honest reshare flow in which every packet reaches a member and a joiner first in
+// all its single-field alterations (signature kept), then genuinely.
+func (h *hist) sweepHistory() {
+	h.fabricate([]int{0, 1, 2, 3}, 3, uint32(1+h.rng.Intn(3)))
+	s := reshareSpec{leader: 0, remaining: []int{0, 1, 2, 3}, leaving: nil, joining: []int{4}, thr: 3}
+	_, prop := h.command(0, h.reshareCmd(s, ""), "cmd-reshare", "leader", false)
+	h.sweep(1, prop, "proposal", 0)
+	h.sweep(4, prop, "proposal", 0)
+	h.packet(2, prop, "proposal", "leader")
+	_, acc := h.command(2, simpleCmd("accept"), "cmd-accept", "member", false)
+	h.sweep(1, acc, "accept", 2)
+	h.command(4, h.joinCmd("group"), "cmd-join:group", "joiner", false)
+	if h.rng.Intn(2) == 0 {
+		_, ab := h.command(0, simpleCmd("abort"), "cmd-abort", "leader", false)
+		h.sweep(1, ab, "abort", 0)
+		h.sweep(4, ab, "abort", 0)
+	} else {
+		_, ex := h.command(0, simpleCmd("execute"), "cmd-execute", "leader", false)
+		h.sweep(1, ex, "execute", 0)
+		h.sweep(4, ex, "execute", 0)
+	}
+}
+
 // ---------- table cases ----------
 
 func tableCases() []string {
@@ -249,7 +294,7 @@ func Run(name, prop string) func(outDir string, seed int64, tier string) error {
 				specs = append(specs, spec{id: len(specs), kind: kind, seed: rng.Int63()})
 			}
 		}
-		for _, wk := range []string{"w-fresh-epoch", "w-left-panic", "w-key-subst", "w-nonleader-exec", "w-nil-leader"} {
+		for _, wk := range []string{"w-fresh-epoch", "w-left-panic", "w-key-subst", "w-nonleader-exec", "w-nil-leader", "w-unsigned-key"} {
 			add(wk, 1)
 		}
 		nGen, nFab, nKy, nSleep := 24, 44, 5, 4
@@ -264,6 +309,14 @@ func Run(name, prop string) func(outDir string, seed int64, tier string) error {
 		add("kyber-gen", nKy)
 		add("kyber-fab", nKy)
 		add("sleep", nSleep)
+		nSweep := 1
+		if prop == "C09" {
+			nSweep = 3
+		}
+		if tier == "thorough" {
+			nSweep *= 10
+		}
+		add("sweep", nSweep)
 
 		tmp, err := os.MkdirTemp(tmpBase(), "zzv_dkgsm_")
 		if err != nil {
